@@ -70,7 +70,7 @@ Definition out_eqb (a b : out) : bool :=
 Definition ret_eqb (a b : ret) : bool :=
   match a, b with
   | RNone, RNone | RCfgErr, RCfgErr | RNoSubConn, RNoSubConn | RTransient, RTransient
-  | RKeyErr, RKeyErr | RBlocked, RBlocked | RPanic, RPanic | RStuck, RStuck | RBadOp, RBadOp => true
+  | RKeyErr, RKeyErr | RBlocked, RBlocked | RParked, RParked | RPanic, RPanic | RStuck, RStuck | RBadOp, RBadOp => true
   | RPicked n, RPicked m => N.eqb n m
   | _, _ => false
   end.
